@@ -37,6 +37,7 @@ type ReadCfg struct {
 	OnCont       bool
 	OnInter      int // 0 none 1 read all 2 read nothing 3 read part
 	SeedMsgs     bool
+	NoDiscard    bool // the application always reads units to their end
 }
 
 func (c ReadCfg) Name() string {
@@ -73,6 +74,7 @@ type Rec struct {
 	HdrAt   int // transport bytes consumed when the header was handed over (-1 unknown)
 	EndAt   int // transport bytes consumed when the unit was complete (-1 unknown)
 	Short   bool // 'I': the handler's reader ended cleanly before Hdr.Length bytes
+	Failed  bool // handed over by an API call that then returned an error (ReadMessage)
 }
 
 // ContRec is an OnContinuation callback observation.
@@ -215,6 +217,7 @@ func appReader(r *eng.Run, p *Pipe, cfg ReadCfg, o *Outcome) {
 					rec.Short = true
 				}
 			}
+			rec.Failed = err != nil // the handler's reader reported the failure
 			o.Recs = append(o.Recs, rec)
 			return err
 		}
@@ -236,7 +239,7 @@ func appReader(r *eng.Run, p *Pipe, cfg ReadCfg, o *Outcome) {
 		if h.OpCode.IsControl() {
 			rec.Kind = 'C'
 		}
-		if !readUnit(r, p, rd, rd.Discard, rec, o, true) {
+		if !readUnit(r, p, rd, rd.Discard, rec, o, !cfg.NoDiscard) {
 			return
 		}
 		rec.EndAt = p.Consumed()
@@ -292,6 +295,7 @@ func appReadMessage(r *eng.Run, p *Pipe, cfg ReadCfg, o *Outcome) {
 			if m.OpCode.IsControl() {
 				rec.Kind = 'C'
 			}
+			rec.Failed = err != nil
 			o.Recs = append(o.Recs, rec)
 		}
 		if err != nil {
@@ -372,7 +376,7 @@ type Exp struct {
 	Data   []byte
 	First  *ref.Frame // frame whose header the application is handed (nil if none)
 	EndOff int        // wire offset at which the unit is complete
-	Text   bool
+	CallEnd int       // wire offset at which the API call that hands it over returns
 }
 
 func wanted(cfg ReadCfg, op byte) bool {
@@ -411,7 +415,7 @@ func Model(s *Stream, cfg ReadCfg) []Exp {
 			out = append(out, Exp{Kind: 'M', Op: m.Op, Data: m.Payload, First: m.First, EndOff: m.Last.End})
 		case AppReadMessage:
 			for _, c := range m.Inter {
-				out = append(out, Exp{Kind: 'C', Op: c.Op, Data: c.Payload, First: nil, EndOff: c.End})
+				out = append(out, Exp{Kind: 'C', Op: c.Op, Data: c.Payload, First: nil, EndOff: c.End, CallEnd: m.Last.End})
 			}
 			out = append(out, Exp{Kind: 'M', Op: m.Op, Data: m.Payload, EndOff: m.Last.End})
 		case AppReadData:
@@ -440,6 +444,33 @@ func frameExp(f *ref.Frame) Exp {
 	return Exp{Kind: 'F', Op: f.Op, Data: raw, First: f, EndOff: f.End}
 }
 
+// Before returns the expected records that are complete (and whose API call
+// has returned) at wire offset cutoff. Records are in wire order, so this is a
+// prefix.
+func Before(exp []Exp, cutoff int) []Exp {
+	n := 0
+	for _, e := range exp {
+		end := e.EndOff
+		if e.CallEnd > end {
+			end = e.CallEnd
+		}
+		if end > cutoff {
+			break
+		}
+		n++
+	}
+	return exp[:n]
+}
+
+// Delivered returns the records handed over by API calls that succeeded.
+func (o *Outcome) Delivered() []Rec {
+	n := len(o.Recs)
+	for n > 0 && o.Recs[n-1].Failed {
+		n--
+	}
+	return o.Recs[:n]
+}
+
 // hdrOf converts a reference frame to the header the library should report.
 func hdrOf(f *ref.Frame) ws.Header {
 	return ws.Header{Fin: f.Fin, Rsv: f.Rsv, OpCode: ws.OpCode(f.Op), Masked: f.Masked, Mask: f.Mask, Length: int64(len(f.Payload))}
@@ -449,13 +480,14 @@ func hdrOf(f *ref.Frame) ws.Header {
 // records. rule prefixes identify the clause; want is the expected list the
 // application must have been handed in full.
 func CheckRecs(r *eng.Run, cfg ReadCfg, o *Outcome, want []Exp) {
-	if len(o.Recs) < len(want) {
-		e := want[len(o.Recs)]
+	recs := o.Delivered()
+	if len(recs) < len(want) {
+		e := want[len(recs)]
 		r.Failf("missing_delivery", "%s: delivered %d units, expected %d; first missing: kind=%c op=%d len=%d (terminal error %v at %s)",
-			cfg.Name(), len(o.Recs), len(want), e.Kind, e.Op, len(e.Data), o.Err, o.ErrAt)
+			cfg.Name(), len(recs), len(want), e.Kind, e.Op, len(e.Data), o.Err, o.ErrAt)
 	}
 	for i, e := range want {
-		g := o.Recs[i]
+		g := recs[i]
 		kind := g.Kind
 		if cfg.App == AppReadMessage && e.Kind == 'C' {
 			kind = 'C'
